@@ -31,7 +31,9 @@ func c14Layouts(thorough bool) []gen.Layout {
 									dev++
 								}
 							}
-							if dev == 0 || (!thorough && dev > 2) {
+							// (all 4800 combinations x the thorough family would take hours:
+							// thorough explores up to three deviating choices, quick two)
+							if dev == 0 || (!thorough && dev > 2) || dev > 3 {
 								continue
 							}
 							l := gen.Layout{Pad: p, NL: n, LeadBlank: b, TrailBlank: b, Ann: a, QuoteNames: q == 1 || q == 2, EscNames: q == 2, EscValues: q == 3, Comments: c, Indent: "\t"}
@@ -163,7 +165,7 @@ func init() {
 	Register(&Prop{
 		ID:        "C14",
 		Technique: "bounded exhaustive enumeration of schema models x layout combinations; differential comparison of every observable against the canonical rendering of the same model",
-		Rule:      "every model of the annotated-model family (<=2 levels, <=2 children, every node kind, ordered rule selections, notes) rendered under every layout differing from the canonical one in <=2 (thorough: all 2159) of the dimensions padding{none,1,3,tab,glued} x newline{LF,CRLF,CR} x blank lines x annotation style{//,/* */,/* */ broken after { and commas,/* */ broken around the colons} x rule-name quoting{bare,quoted,quoted with an escaped letter} x user comments{none,# eol,# own line,### block,bare # eol,bare # own line}; non-trivial = renderings of accepted models",
+		Rule:      "every model of the annotated-model family (<=2 levels, <=2 children, every node kind, ordered rule selections, notes) rendered under every layout differing from the canonical one in <=2 (thorough: <=3, 858 layouts; quick 182) of the dimensions padding{none,1,3,tab,glued} x newline{LF,CRLF,CR,every break in its own style in rotation x2} x blank lines x annotation style{//,/* */,/* */ broken after { and commas,/* */ broken around the colons} x rule-name quoting{bare,quoted,quoted with an escaped letter,bare with type names in rule values written with a JSON escape} x user comments{none,# eol,# own line,### block,bare # eol,bare # own line}; non-trivial = renderings of accepted models",
 		Bounds: func(tier string) map[string]any {
 			return map[string]any{"layouts": len(c14Layouts(tier == "thorough")), "family_level": map[string]int{"quick": 2, "thorough": 3}[tier]}
 		},
